@@ -325,3 +325,24 @@ M("dm14_pointer_type_mask", ["C17"], "server reports pointer type from the wrong
   ("j1939/Dm14Server.py", "                self.pointer_type = (data[1] >> 4) & 0x1", "                self.pointer_type = (data[1] >> 5) & 0x1"))
 M("dm14_client_no_cleanup", ["C17", "C18"], "client leaves its DM15 handler subscribed (D25 reverted)",
   ("j1939/Dm14Query.py", "        self._ca.unsubscribe(self._parse_dm15)\n        self._ca.unsubscribe(self._parse_dm16)\n        self.state = QueryState.IDLE", "        self.state = QueryState.IDLE"))
+
+M("dm14_verify_key_always_true", ["C18"], "verify_key accepts any key",
+  ("j1939/Dm14Server.py", "        return True if self._key_from_seed(seed) == key else False", "        return True"))
+M("dm14_key_low_byte_only", ["C18"], "only the low byte of the key is compared",
+  ("j1939/Dm14Server.py", "        return True if self._key_from_seed(seed) == key else False", "        return True if (self._key_from_seed(seed) & 0xFF) == (key & 0xFF) else False"))
+M("dm14_facade_stuck_after_error", ["C18"], "facade stays in WAIT_QUERY after a failed read (D17 reverted)",
+  ("j1939/memory_access.py", "            finally:\n                # also after a timeout or an error response\n                self.state = DMState.IDLE\n            return data", "            finally:\n                pass\n            self.state = DMState.IDLE\n            return data"))
+M("dm14_deaf_after_refusal", ["C18"], "listener not re-subscribed after a refusal (D15 reverted)",
+  ("j1939/memory_access.py", "                                    # keep listening for the next request\n                                    self._ca.subscribe(self._listen_for_dm14)\n", ""))
+M("dm14_no_reset_after_wrong_key", ["C18"], "server not reset after a wrong key (D16 reverted)",
+  ("j1939/memory_access.py", "                                # forget the rejected request, otherwise no later one is accepted\n                                self.server.reset_query()\n", ""))
+M("dm14_error_indicator_16bit", ["C18"], "error indicator encoded in 16 bits",
+  ("j1939/Dm14Server.py", "                data[length - 4] = error >> 16", "                data[length - 4] = 0"))
+M("dm14_timeout_ignored", ["C18"], "client waits 5 s regardless of max_timeout",
+  ("j1939/Dm14Query.py", "                raw_bytes = self.data_queue.get(block=True, timeout=max_timeout)", "                raw_bytes = self.data_queue.get(block=True, timeout=5)"))
+M("dm14_address_kept", ["C18"], "server keeps the pointer after completion (D24 reverted)",
+  ("j1939/Dm14Server.py", "                self.sa = None\n                self.address = None  # the next request may address other memory\n                self._ca.unsubscribe(self.parse_dm14)", "                self.sa = None\n                self._ca.unsubscribe(self.parse_dm14)"))
+M("dm14_error_text_dropped", ["C18"], "client exception lacks the ErrorInfo text",
+  ("j1939/Dm14Query.py", "f\"Device {hex(sa)} error: {hex(error)} {j1939.ErrorInfo[error]} edcp: {hex(edcp)}\"", "f\"Device {hex(sa)} error: {hex(error)} edcp: {hex(edcp)}\""))
+M("dm14_proceed_before_key", ["C18"], "proceed callback consulted before the key is verified",
+  ("j1939/memory_access.py", "                            if self.server.verify_key(\n                                self.server.seed, self.server.key\n                            ):", "                            if (self._proceed_function is not None and self._proceed_function(self.server.command, 0, 0, 0, 0, 0, 0, 0, 0) or True) and self.server.verify_key(\n                                self.server.seed, self.server.key\n                            ):"))
